@@ -18,11 +18,19 @@ structure Env where
   batchOk : List (Nat × Nat) → Bool   -- claimed (vk, stake) leaves against the commitment and the path
   aggOk : List (Nat × Nat) → Bool     -- (vk, sigma) pairs against msg ‖ root
 
-/-- `check_indices` as it is: `index > m` -/
-def checkIndices (E : Env) (s : Sig) : List Nat → Except Err Unit
+/-- `check_indices` before the `fix:` commit: `index > m` (kept to document the fixed finding) -/
+def checkIndicesOld (E : Env) (s : Sig) : List Nat → Except Err Unit
   | [] => .ok ()
   | i :: r =>
     if i > E.m then .error .indexBound
+    else if !E.won s.sigma i s.stake then .error .lotteryLost
+    else checkIndicesOld E s r
+
+/-- `check_indices` as it is: `index >= m` is rejected -/
+def checkIndices (E : Env) (s : Sig) : List Nat → Except Err Unit
+  | [] => .ok ()
+  | i :: r =>
+    if i ≥ E.m then .error .indexBound
     else if !E.won s.sigma i s.stake then .error .lotteryLost
     else checkIndices E s r
 
@@ -74,7 +82,7 @@ def verify (E : Env) (sigs : List Sig) : Except Err Unit :=
   | .ok () => if E.aggOk (sigs.map fun s => (s.vk, s.sigma)) then .ok () else .error .aggInvalid
 
 theorem checkIndices_ok (E : Env) (s : Sig) : ∀ l, checkIndices E s l = .ok () →
-    ∀ i ∈ l, i ≤ E.m ∧ E.won s.sigma i s.stake = true := by
+    ∀ i ∈ l, i < E.m ∧ E.won s.sigma i s.stake = true := by
   intro l
   induction l with
   | nil => intro _ i hi; simp at hi
@@ -89,7 +97,7 @@ theorem checkIndices_ok (E : Env) (s : Sig) : ∀ l, checkIndices E s l = .ok ()
     · exact ih h i hi
 
 theorem checkAll_ok (E : Env) : ∀ sigs, checkAll E sigs = .ok () →
-    ∀ s ∈ sigs, ∀ i ∈ s.idxs, i ≤ E.m ∧ E.won s.sigma i s.stake = true := by
+    ∀ s ∈ sigs, ∀ i ∈ s.idxs, i < E.m ∧ E.won s.sigma i s.stake = true := by
   intro sigs
   induction sigs with
   | nil => intro _ s hs; simp at hs
@@ -105,7 +113,7 @@ theorem checkAll_ok (E : Env) : ∀ sigs, checkAll E sigs = .ok () →
 /-- **Structural soundness of the verifier as it is** -/
 theorem verify_structural (E : Env) (sigs : List Sig) (h : verify E sigs = .ok ()) :
     E.k ≤ (allIdx sigs).length ∧ (allIdx sigs).Nodup ∧
-    (∀ s ∈ sigs, ∀ i ∈ s.idxs, i ≤ E.m ∧ E.won s.sigma i s.stake = true) ∧
+    (∀ s ∈ sigs, ∀ i ∈ s.idxs, i < E.m ∧ E.won s.sigma i s.stake = true) ∧
     E.batchOk (sigs.map fun s => (s.vk, s.stake)) = true ∧
     E.aggOk (sigs.map fun s => (s.vk, s.sigma)) = true := by
   unfold verify at h
@@ -127,10 +135,109 @@ theorem verify_structural (E : Env) (sigs : List Sig) (h : verify E sigs = .ok (
       by simpa using hb, hagg⟩
   · simp at h
 
-/-- index `m` itself is accepted: the bound test is `>` -/
+/-- FIXED FINDING: with the old bound test index `m` itself passed `check_indices` -/
 def E0 : Env := { m := 5, k := 3, won := fun _ _ _ => true, batchOk := fun _ => true, aggOk := fun _ => true }
 theorem index_eq_m_counterexample :
-    verify E0 [{ sigma := 1, idxs := [0, 1, 5], vk := 0, stake := 1 }] = .ok () ∧ ¬ (5 < E0.m) := by
-  exact ⟨rfl, by decide⟩
+    checkIndicesOld E0 { sigma := 1, idxs := [0, 1, 5], vk := 0, stake := 1 } [0, 1, 5] = .ok () ∧
+    checkIndices E0 { sigma := 1, idxs := [0, 1, 5], vk := 0, stake := 1 } [0, 1, 5] = .error .indexBound := by
+  exact ⟨rfl, rfl⟩
+
+/-! ### batch verification and the panic outcome of the batch-path verifier -/
+
+/-- outcome of the real verifier including the panic of the batch-path code on hostile input
+(`batch = 2`; see `C09_stm_empty_panic_note`) -/
+inductive Out where
+  | ok | err (e : Err) | panic
+  deriving DecidableEq, Repr
+
+/-- `batchTri`: 0 = path invalid, 1 = valid, 2 = the batch-path verifier panics -/
+def verifyM (E : Env) (batchTri : Nat) (sigs : List Sig) : Out :=
+  match checkAll E sigs with
+  | .error e => .err e
+  | .ok () =>
+    let all := allIdx sigs
+    if all.length ≠ distinctCount all then .err .indexNotUnique
+    else if all.length < E.k then .err .notEnough
+    else if batchTri = 2 then .panic
+    else if batchTri ≠ 1 then .err .batchPath
+    else if E.aggOk (sigs.map fun s => (s.vk, s.sigma)) then .ok else .err .aggInvalid
+
+/-- the part of `verifyM` that `batch_verify` runs per member (`preliminary_verify`) -/
+def preliminaryM (E : Env) (batchTri : Nat) (sigs : List Sig) : Out :=
+  match checkAll E sigs with
+  | .error e => .err e
+  | .ok () =>
+    let all := allIdx sigs
+    if all.length ≠ distinctCount all then .err .indexNotUnique
+    else if all.length < E.k then .err .notEnough
+    else if batchTri = 2 then .panic
+    else if batchTri ≠ 1 then .err .batchPath
+    else .ok
+
+/-- `batch_verify`: every member passes `preliminary_verify` (first failure is returned), an empty
+member makes `BlsSignature::aggregate(..).unwrap()` panic, then one batched pairing check -/
+def batchVerify : List (Env × Nat × List Sig) → Bool → Out
+  | [], final => if final then .ok else .err .aggInvalid
+  | (E, bt, sigs) :: r, final =>
+    match preliminaryM E bt sigs with
+    | .ok => if sigs.isEmpty then .panic else batchVerify r final
+    | o => o
+
+theorem batchVerify_members (ms : List (Env × Nat × List Sig)) (final : Bool)
+    (h : batchVerify ms final = .ok) : ∀ mbr ∈ ms, preliminaryM mbr.1 mbr.2.1 mbr.2.2 = .ok := by
+  induction ms with
+  | nil => intro m hm; simp at hm
+  | cons a r ih =>
+    obtain ⟨E, bt, sigs⟩ := a
+    intro mbr hm
+    simp only [batchVerify] at h
+    split at h
+    · rename_i hp
+      split at h
+      · simp at h
+      · rcases List.mem_cons.mp hm with rfl | hm
+        · exact hp
+        · exact ih h mbr hm
+    · rename_i o hne
+      rcases List.mem_cons.mp hm with rfl | hm
+      · exact absurd h (by intro hh; exact hne (by simpa using hh))
+      · exact absurd h (by intro hh; exact hne (by simpa using hh))
+
+theorem verifyM_of_preliminary (E : Env) (bt : Nat) (sigs : List Sig)
+    (hp : preliminaryM E bt sigs = .ok) (hagg : E.aggOk (sigs.map fun s => (s.vk, s.sigma)) = true) :
+    verifyM E bt sigs = .ok := by
+  unfold preliminaryM at hp
+  unfold verifyM
+  split at hp
+  · simp at hp
+  · simp only at hp ⊢
+    split at hp; · simp at hp
+    split at hp; · simp at hp
+    split at hp; · simp at hp
+    split at hp; · simp at hp
+    rename_i h1 h2 h3 h4
+    simp [h1, h2, h3, h4, hagg]
+
+theorem verifyM_structural (E : Env) (bt : Nat) (sigs : List Sig) (h : verifyM E bt sigs = .ok) :
+    E.k ≤ (allIdx sigs).length ∧ (allIdx sigs).Nodup ∧
+    (∀ s ∈ sigs, ∀ i ∈ s.idxs, i < E.m ∧ E.won s.sigma i s.stake = true) ∧
+    bt = 1 ∧ E.aggOk (sigs.map fun s => (s.vk, s.sigma)) = true := by
+  unfold verifyM at h
+  split at h; · simp at h
+  rename_i hall
+  simp only at h
+  split at h; · simp at h
+  rename_i hu
+  split at h; · simp at h
+  rename_i hk
+  split at h; · simp at h
+  rename_i hb2
+  split at h; · simp at h
+  rename_i hb0
+  split at h
+  · rename_i hagg
+    exact ⟨by omega, nodup_of_distinctCount _ (by simpa using hu), checkAll_ok E sigs hall,
+      by simpa using hb0, hagg⟩
+  · simp at h
 
 end StmVerify
